@@ -379,7 +379,6 @@ package weshnet
 //@   stable svcOK(s)
 //@   requires req != nil
 
-
 //@ func (*service).MultiMemberGroupCreate
 //@   for C19
 //@   safety
@@ -427,7 +426,6 @@ package weshnet
 //@   havocall
 //@   stable svcOK(s)
 //@   requires request != nil
-
 
 //@ func (*service).AppMetadataSend
 //@   for C19
